@@ -1,5 +1,5 @@
 SPECIFICATION Spec
-CONSTANTS K = 2 CloseGuardOwn = TRUE CancelWakesAccept = TRUE ShutdownClaims = TRUE TrackChecksDown = TRUE UnmarkAfterWrite = TRUE StartupSafe = TRUE ListenerMayFail = TRUE FailureDistinct = FALSE Emit = FALSE
+CONSTANTS K = 2 CloseGuardOwn = TRUE CancelWakesAccept = TRUE ShutdownClaims = TRUE TrackChecksDown = TRUE UnmarkAfterWrite = TRUE StartupSafe = TRUE ListenerMayFail = TRUE FailureDistinct = FALSE TimeoutIsError = TRUE RetryWaits = TRUE Emit = FALSE
 INVARIANT NoCrash
 INVARIANT TrueCount
 INVARIANT RejectedClosed
